@@ -40,6 +40,11 @@ INVALID_POOL = [
     ("no placeholders", "none either"),
     ("{daughters}", "{daughters}"),
     ("{mother.name} -> {daughters}", "({mother} -> {daughters})"),
+    # both placeholders *and* an anonymous (auto-numbered) field: "contains any other"
+    ("{mother} -> {daughters}{}", "({mother} -> {daughters})"),
+    ("{mother} -> {daughters}", "({mother} -> {daughters}{!r})"),
+    ("{mother} -> {daughters}{:>4}", "({mother} -> {daughters})"),
+    ("{mother} -> {daughters}", "({}{mother} -> {daughters})"),
     ("", ""),
 ]
 TREE = ("D*+", (("D0", (("K_S0", ("pi+", "pi-")), ("pi0", ("gamma", "gamma")))), "pi+"))
@@ -104,8 +109,11 @@ def replay(beh, pats):
                 check(i)
             elif a == "Render":
                 top, sub = pats[st["cfg"]]
-                s = dc.to_string()
-                trees = parse_all(s, top, sub)
+                try:
+                    s = dc.to_string()
+                    trees = parse_all(s, top, sub)
+                except Exception as e:  # noqa: BLE001   (rendering under the format in force must work)
+                    s, trees = f"<raised {type(e).__name__}: {e}>", []
                 if len(trees) != 1 or canon(trees[0]) != canon(TREE):
                     bad.append(("render-uses-format-in-force", i, {"string": s, "patterns": (top, sub)}))
                 check(i)
@@ -238,7 +246,7 @@ def run(tier: str, seed: int, replay_path: str | None = None) -> int:
         o.rule = ("behaviours of spec/Descriptor.tla (operation sequences Create/Enter/Exit/Set/Render) replayed with "
                   "real with-blocks; distinct = distinct operation sequences; non-trivial = all (each has >= 1 op)")
         o.assumptions = ["LIFO nesting of with-blocks (Python semantics)",
-                         "abstract pattern ids concretised from pools of 8 valid / 13 invalid spellings"]
+                         "abstract pattern ids concretised from pools of 8 valid / 17 invalid spellings"]
         o.exhaustive = True
     finally:
         tlc.cleanup(wd)
